@@ -6,18 +6,20 @@ from .. import encode, model, runner, sexp
 from ..common import d42  # noqa: F401
 from d42.migration.migrate_v1_to_v2 import mapping, rewrite_imports
 
-MODULE = "D42.Props.C19"
+MODULE = "D42.Props.C19Splice"
 THEOREMS = ["D42.Gen.Migration.mapping_importable", "D42.Gen.Migration.mapping_keeps_names",
             "D42.Gen.Migration.mapping_modules_distinct", "D42.Gen.Migration.entries_count",
             "D42.Migrate.rewrite_none", "D42.Migrate.rewrite_some", "D42.Migrate.splitLines_flatten",
             "D42.Migrate.splitLines_no_inner_newline", "D42.Migrate.replacement_binds_same_locals",
             "D42.Migrate.replacementLines_shape", "D42.Migrate.applyOne_whole_lines",
-            "D42.Migrate.applyOne_preserves_prefix", "D42.Migrate.applyOne_preserves_suffix"]
-FILES = ["D42/Model/Migrate.lean", "D42/Gen/Migration.lean", "D42/Props/C19.lean"]
+            "D42.Migrate.applyOne_preserves_prefix", "D42.Migrate.applyOne_preserves_suffix",
+            "D42.Migrate.rewrite_splice", "D42.Migrate.rewriteImports_splice", "D42.Migrate.spans_ordered",
+            "D42.Migrate.repsOK_example"]
+FILES = ["D42/Model/Migrate.lean", "D42/Gen/Migration.lean", "D42/Props/C19.lean", "D42/Props/C19Splice.lean"]
 
 EVIDENCE = dict(
     level="proof",
-    checker_cmd="lake build D42.Props.C19 D42.Gen.Migration d42model && lake env lean <#print axioms audit>",
+    checker_cmd="lake build D42.Props.C19Splice D42.Gen.Migration d42model && lake env lean <#print axioms audit>",
     trusted=["Lean kernel; standard axioms", "D42/Gen/Migration.lean regenerated on this run from the mapping in the source and from "
              "importing every target module of the current tree", "Python's parser supplies statement spans (external function)",
              "rewrite model tied to the code by comparing the output text on this run's modules"],
@@ -140,6 +142,42 @@ def enc_module(src):
     return ["migrate", encode.enc_bytes(src.encode()), stmts]
 
 
+def _is_space(c):
+    return c in (32, 9, 10, 13, 11, 12)
+
+
+def reps_ok(src):
+    """RepsOK of Props/C19Splice.lean evaluated on what CPython's parser reports for `src` (the hypothesis of
+    rewrite_splice): coordinates inside the text; consecutive import statements on later lines, or on the same line
+    separated by blanks and a `;` with non-blank text before the second."""
+    import io
+    lines = [ln.encode() for ln in io.StringIO(src, newline="").readlines()]
+    reps = [nd for nd in ast.parse(src).body if isinstance(nd, ast.ImportFrom) and nd.level == 0]
+
+    def line(i):
+        return lines[i - 1] if 1 <= i <= len(lines) else b""
+    for st in reps:
+        if not (1 <= st.lineno <= st.end_lineno <= len(lines) and st.col_offset <= len(line(st.lineno))
+                and st.end_col_offset <= len(line(st.end_lineno))
+                and (st.lineno != st.end_lineno or st.col_offset <= st.end_col_offset)):
+            return False
+    for i, a in enumerate(reps):
+        for b in reps[i + 1:]:
+            if a.end_lineno < b.lineno:
+                continue
+            if a.end_lineno != b.lineno:
+                return False
+            ln = line(a.end_lineno)
+            k = a.end_col_offset
+            while k < len(ln) and _is_space(ln[k]):
+                k += 1
+            if not (k < b.col_offset and k < len(ln) and ln[k] == 59):
+                return False
+            if not line(b.lineno)[:b.col_offset].strip(b" \t\n\r\x0b\x0c"):
+                return False
+    return True
+
+
 def run(ctx):
     from .. import extract_migration
     extract_migration.run()
@@ -197,6 +235,10 @@ def run(ctx):
                     ctx.violation("imports after the rewrite do not bind the same local names to the v2 counterparts",
                                   source=src, output=out, expected=repr(sorted(want)), got=repr(sorted(got)))
         try:
+            ctx.count("splice_hypothesis_RepsOK_" + str(reps_ok(src)).lower())
+        except Exception:  # noqa: BLE001
+            ctx.count("splice_hypothesis_RepsOK_error")
+        try:
             reqs.append(enc_module(src))
             exp.append("none" if out is None else ["some", encode.tostr(encode.enc_bytes(out.encode()))])
             info.append(src)
@@ -227,9 +269,15 @@ MANIFEST = dict(
     technique="finite-table proof by `decide +kernel` over the mapping regenerated from the source (every target importable, names "
               "preserved) + Lean theorems about the splice model + output-text correspondence + AST-comparison search",
     text="Part 1 is a proof over the whole (finite) mapping table extracted from the current source together with the names each "
-         "target module exports in the current tree: mapping_importable, mapping_keeps_names. Part 2: Props/C19.lean states "
-         "rewrite_none and the splice lemmas for the line/column model (as proved; see evidence); tie: byte-exact output of model "
-         "and code on generated modules; search: AST of non-import statements unchanged and in order, bound-name table of imports "
-         "as expected, output compiles — on the real code.",
+         "target module exports in the current tree: mapping_importable, mapping_keeps_names. Part 2 (Props/C19.lean, "
+         "Props/C19Splice.lean): rewrite_none / rewrite_some (nothing to do iff there is no top-level absolute from-import), "
+         "replacement_binds_same_locals (the replacement lines bind the same local names, mapped ones to their v2 target, unmapped "
+         "ones to the original module), and rewrite_splice / rewriteImports_splice: for any number of import statements, owning "
+         "their physical lines or sharing them with other statements, the output is the source with exactly the import spans "
+         "replaced and every byte between them copied unchanged and in order (spans_ordered: the spans are disjoint and ordered). "
+         "The hypothesis RepsOK (what the parser reports: coordinates inside the text, `;` between statements on one line) is "
+         "evaluated on CPython's real ast output for every generated module (evidence: splice_hypothesis_RepsOK_*). Tie: "
+         "byte-exact output of model and code on generated modules; search: AST of non-import statements unchanged and in order, "
+         "bound-name table of imports as expected, output compiles — on the real code.",
     note="Modelled, not verified: Python's parser (supplies statement spans), file I/O, directory walking. Trusted: Lean kernel + "
          "standard axioms, translator (importing target modules), hand model (sampling tie).")
